@@ -2,7 +2,7 @@
   The constraint pass (`CheckTargetConstraints`) against `Spec`: inputs, outputs, alias resolution
   and the test/testonly dependency rules; and the graph stage as a whole.
 -/
-import GrogModel.Lemmas.AnalysisSpec
+import GrogModel.Lemmas.AnalysisCache
 namespace Grog.Analysis
 open Grog Grog.Paths Spec
 
@@ -278,7 +278,7 @@ theorem buildGraph_none_iff {ns : List Node} (hnd : NoDuplicate ns) (hrel : RelO
       · intro hnc h
         refine ⟨hdef, hnc, ?_⟩
         intro hc
-        rw [← hasConflict_iff hnd hdef hrel] at hc
+        rw [← hasConflict_iff hnd hdef hrel, ← hasConflictC_eq hnd hdef] at hc
         simp [hc] at h
       · intro hf; exact hf.elim
   · rintro ⟨hdef, hnc, hcf⟩
@@ -291,7 +291,8 @@ theorem buildGraph_none_iff {ns : List Node} (hnd : NoDuplicate ns) (hrel : RelO
     cases findCycle ns <;> simp only
     · intro h; exact absurd hnc h
     · intro _
-      have : hasConflict Cfg.current ns = false := by
+      have : hasConflictC Cfg.current ns = false := by
+        rw [hasConflictC_eq hnd hdef]
         cases hh : hasConflict Cfg.current ns
         · rfl
         · exact absurd ((hasConflict_iff hnd hdef hrel).mp hh) hcf
